@@ -229,6 +229,78 @@ def h_debump_site(eng, resname, anglenum, size):
         eng.check(And(core.same(a.x, fresh[nm][0]), core.same(a.y, fresh[nm][1]), core.same(a.z, fresh[nm][2])), "moved-to-rotated-position")
 
 
+# ---------------------------------------------------------------------------
+# Q5: the flip call sites (hydrogens/structures.py Flip.__init__ / fix_flip / finalize / complete)
+# ---------------------------------------------------------------------------
+
+
+class _IdLog:
+    """cells stand-in that tracks which atom OBJECTS are in the map"""
+
+    def __init__(self):
+        self.present = {}
+        self.events = []
+
+    def add_cell(self, atom):
+        self.present[id(atom)] = atom
+        self.events.append(("add", atom.name))
+
+    def remove_cell(self, atom):
+        self.present.pop(id(atom), None)
+        self.events.append(("remove", atom.name))
+
+
+def h_flip_site(eng, resname, outcome):
+    """after the flip machinery has completed, exactly the residue's atoms are in the cell map
+    (coordinates symbolic: the bookkeeping must not depend on them)"""
+    from pdb2pqr import debump, hydrogens, quatfit, utilities
+    from pdb2pqr.hydrogens import structures as hs
+
+    from . import c04
+
+    bm, res = c04._setup(resname, "internal", False)
+    deb = debump.Debump(bm)
+    routines = hydrogens.HydrogenRoutines(deb, hydrogens.create_handler())
+    opt = routines.is_optimizeable(res)
+    log = _IdLog()
+    for a in res.atoms:
+        log.add_cell(a)  # assign_cells
+    if eng.symbolic:
+        for a in res.atoms:
+            a.x, a.y, a.z = eng.real(f"{a.name}_x"), eng.real(f"{a.name}_y"), eng.real(f"{a.name}_z")
+    deb.cells = log
+    from pdb2pqr import structures as structures_mod
+
+    sym = []
+    if eng.symbolic:
+        C, S = eng.real("C"), eng.real("S")
+        u = [eng.real("u0"), eng.real("u1"), eng.real("u2")]
+        sym = [
+            (quatfit, "math", type("M", (), {"pi": 3.141592653589793, "cos": staticmethod(lambda x: C), "sin": staticmethod(lambda x: S)})),
+            (quatfit, "normalize", lambda v: list(u)),
+            (utilities, "np", shims.NP),
+            (utilities, "dihedral", lambda *a: 0.0),
+            (debump, "util", utilities),
+            (structures_mod.Atom, "__str__", lambda self: f"<atom {self.name}>"),  # only used in a debug message of fix_flip
+        ]
+    with patched(*sym):
+        flip = hs.Flip(res, opt, deb)
+        moved = [a.name[:-4] for a in res.atoms if a.name.endswith("FLIP")]
+        if outcome == "keep" and moved:
+            flip.fix_flip(res.get_atom(moved[0] + "FLIP"))
+        elif outcome == "flip" and moved:
+            flip.fix_flip(res.get_atom(moved[0]))
+        flip.complete()
+    in_map = set(log.present)
+    atoms = {id(a): a for a in res.atoms}
+    missing = sorted(a.name for i, a in atoms.items() if i not in in_map)
+    ghosts = sorted(a.name for i, a in log.present.items() if i not in atoms)
+    eng.note(f"{resname} {outcome}: not in map {missing}; ghosts {ghosts}")
+    eng.check(not missing, "kept-atoms-stay-in-the-cell-map", note=f"{resname} ({outcome}): atoms {missing} of the final residue are no longer in the cell map (neighbour queries cannot return them)")
+    eng.check(not ghosts, "deleted-atoms-leave-the-cell-map", note=f"{resname} ({outcome}): deleted atoms {ghosts} are still listed in the cell map")
+    eng.derived["flip_outcome"] = outcome
+
+
 def obligations(tier):
     obs = []
     sizes_key = range(1, 11) if tier == "thorough" else (2, 5)
@@ -254,6 +326,9 @@ def obligations(tier):
         obs.append(Obligation(f"debump-site-SER-chi1-size{s}", h_debump_site, {"resname": "SER", "anglenum": 0, "size": s}, group="debump-site", time_cap=3000, max_paths=200000))
     if tier == "thorough":
         obs.append(Obligation("debump-site-CYS-chi1-size2", h_debump_site, {"resname": "CYS", "anglenum": 0, "size": 2}, group="debump-site", time_cap=3000, max_paths=200000))
+    for r in ("ASN",) if tier == "quick" else ("ASN", "GLN", "HIS"):
+        for outcome in ("undecided", "keep", "flip"):
+            obs.append(Obligation(f"flip-site-{r}-{outcome}", h_flip_site, dict(resname=r, outcome=outcome), group="flip-site", time_cap=900))
     return obs
 
 
